@@ -438,8 +438,9 @@ struct StringStream {
         Char_T         *str  = Storage();
 
 #ifdef QENTEM_VERIF_HOOKS
-        // Verification hook: exact-fit growth (see allocate()).
-        if (new_capacity != 0) {
+        // Verification hook: exact-fit growth (see allocate()) while the stream is small; large streams
+        // keep the production policy so that megabyte outputs do not reallocate on every append.
+        if ((new_capacity != 0) && (new_capacity < SizeT{4096})) {
             allocate(new_capacity);
         } else
 #endif
@@ -452,7 +453,7 @@ struct StringStream {
     void allocate(SizeT size) {
 #ifdef QENTEM_VERIF_HOOKS
         // Verification hook: no power-of-two rounding, so Storage() + Capacity() borders the red zone.
-        if (size == 0)
+        if ((size == 0) || (size >= SizeT{4096}))
 #endif
         size = Memory::AlignSize(size);
 
